@@ -9,7 +9,7 @@
                               ancilla spins has G(z') = 0; otherwise G(z) >= 1 for every value of the ancillas
      fresh_lbl a a'         : ancilla labels '__a k', a <= k < a' -- the counter handed to the helper PCBO and taken back *)
 From QV.Model Require Import Base Matrix Arith Expr Extrema Sat PCBO Convert PCSO.
-From QV.Proofs Require Import BaseProofs KeyProofs ArithProofs PenaltyArith PCBOProofs PCSOProofs.
+From QV.Proofs Require Import BaseProofs KeyProofs ArithProofs LabelProofs PenaltyArith PCBOProofs PCSOProofs AncProofs.
 Open Scope Q_scope.
 
 Theorem C03_constraint : forall r m Hin lam lt b m' w t,
@@ -34,6 +34,13 @@ Print Assumptions C03_sequence.
 Theorem C03_ancilla_blocks : forall m cs m', seq_result_S m cs m' -> (anc m <= anc m')%nat.
 Proof. exact seq_result_S_anc. Qed.
 Print Assumptions C03_ancilla_blocks.
+
+(* num_ancillas covers every ancilla present: after any call, every ancilla spin '__a j' occurring in the PCSO has
+   j < num_ancillas (the counter handed to the helper PCBO and taken back); syntactic, no hypothesis on H's values *)
+Theorem C03_ancilla_bound : forall r m Hin lam lt b m' w t, pcso_add r m Hin lam lt b = Ok (m', w, t) ->
+  LP (AB (anc m)) (tm m) -> LP (AB (anc m)) Hin -> LP (AB (anc m')) (tm m') /\ (anc m <= anc m')%nat.
+Proof. exact pcso_add_AB. Qed.
+Print Assumptions C03_ancilla_bound.
 
 (* non-vacuity: z0 + z1 + z2 - 1 <= 0 on spins with binary slack; ancillas are created, constraint recorded *)
 Example C03_example :
